@@ -123,8 +123,9 @@ def worker(args):
                 out['bad'].append(dict(ob='leftover-invented-a-combo', status='sat', rps=rps, msg=str(sorted(extra))[:200]))
             check('leftovers=present-minus-covered;partition', r.pc, z3.And(*conds))
         out.update(stmts=M.stats['stmts'], feas_queries=M.nq, feas_s=round(M.qtime, 1))
-    except mirx.Unsupported as e:
-        out['error'] = 'unsupported: ' + str(e)
+    except Exception as e:
+        import traceback
+        out['error'] = ('unsupported: ' + str(e)) if isinstance(e, mirx.Unsupported) else ('internal error in the check machinery: ' + repr(e) + ' | ' + traceback.format_exc()[-700:])
     out['wall'] = round(time.time() - t0, 1)
     return out
 
